@@ -57,12 +57,14 @@ def gen_case(rnd, tier: str, i: Any) -> Dict[str, Any]:
     ragged = n_ranks > 1 and n_steps >= 2 and rnd.random() < 0.3      # ranks that recorded different (non-empty) subsets of the steps
     bracket_names = rnd.sample(["<built-in function len>", "<lambda>", "(anonymous)", "<unknown>", "<built-in method item of Tensor object at 0x7f10>"], 3) \
         if rnd.random() < 0.3 else []
+    graph = rnd.random() < 0.3
     for r in range(n_ranks):
         fs, ns = first_step, n_steps
         if ragged and r > 0:
             ns = rnd.randint(1, n_steps)
             fs = first_step + rnd.randint(0, n_steps - ns)
-        p = gen_sim.random_params(rnd, tier, rank=r, first_step=fs, n_steps=ns, repeat_names=True)
+        # graph_launch: one launch call whose correlation id is carried by several kernels (CUDA graph replay)
+        p = gen_sim.random_params(rnd, tier, rank=r, first_step=fs, n_steps=ns, repeat_names=True, graph_launch=graph)
         if bracket_names:
             # names that consist of one bracketed group only: their short name is the empty string
             p["ops_pool"] = ["aten::mm", "aten::add"] + bracket_names
@@ -178,7 +180,7 @@ def run_case(case: Dict[str, Any], ctx: Any) -> core.CaseResult:
         mods[side] = {}
         for fn, tr in case[side].items():
             m = raw.model(tr["traceEvents"])
-            why = wf.well_formed(m, tr["traceEvents"])
+            why = wf.well_formed(m, tr["traceEvents"], shared_device_corr_ok=True)
             if why:
                 res.discarded, res.discard_reason = True, "not well-formed: " + why.split(":")[0][:50]
                 return res
